@@ -837,11 +837,11 @@ type reqRun struct {
 const sigFragmentCycle = "C08/crash/stack-overflow/graphql-go.(*overlappingFieldsCanBeMergedRule).collectConflictsBetweenFieldsAndFragment"
 
 // fatalRisk names the listed finding whose trigger shape the request has ("" if none): a fragment
-// spread (a fragment cycle overflows the stack inside request validation) or a commits selection
+// definition together with a spread (a fragment cycle overflows the stack inside request validation) or a commits selection
 // given both cid and fieldName (unbounded recursion in dagScanNode.Next).
 func fatalRisk(q string) string {
 	switch {
-	case strings.Contains(q, "..."):
+	case strings.Contains(q, "...") && strings.Contains(q, "fragment"):
 		return sigFragmentCycle
 	case commitsCidFieldRe.MatchString(q):
 		return sigCommitsRecursion
@@ -996,7 +996,7 @@ func runReq(c ReqCase) (*reqRun, *hx.Failure) {
 }
 
 func drawMuts(t *rapid.T) []Mut {
-	n := rapid.SampledFrom([]int{0, 0, 0, 1, 1, 1, 2, 2, 3}).Draw(t, "nmut")
+	n := rapid.SampledFrom([]int{0, 0, 0, 0, 0, 1, 1, 1, 2, 3}).Draw(t, "nmut")
 	out := []Mut{}
 	for i := 0; i < n; i++ {
 		out = append(out, Mut{
@@ -1045,7 +1045,7 @@ func TestC08Requests(t *testing.T) {
 			}
 		}
 		rec.Eval(c, nt, labels...)
-		if f != nil && os.Getenv("VERIF_COLLECT") != "" {
+		if f != nil && os.Getenv("VERIF_COLLECT") != "" && !rec.IsKnown(f.Sig) {
 			// discovery mode (development aid): list distinct failure signatures with the shortest request
 			collectMu.Lock()
 			if old, ok := collected[f.Sig]; !ok || len(r.req) < len(old) {
